@@ -17,6 +17,9 @@ def build(kind, kw, n_ft, seed, fill, extra_pad):
     from leaspy.models import model_factory
     from leaspy.io.data import Data, Dataset
     df = cohort(seed, n_ind=6, n_ft=n_ft, missing=0.25)
+    if kw.get("obs_models") == "bernoulli":          # binary outcomes for the Bernoulli observation model
+        for c in [c_ for c_ in df.columns if c_.startswith("f")]:
+            df[c] = np.where(df[c].isna(), np.nan, (df[c] > 0.4).astype(float))
     ds = Dataset(Data.from_dataframe(df))
     m = model_factory(kind, **kw)
     with quiet():
@@ -70,7 +73,8 @@ def standin_masking(tier, seed):
     violations, evals, distinct, samples = [], 0, set(), []
     fills = [0.0, 1e30, float("nan"), float("inf")]
     scalar = ("logistic", dict(source_dimension=1, dimension=3, obs_models="gaussian-scalar"), 3)
-    kinds = [MODEL_KINDS[0], scalar, MODEL_KINDS[2]] + (list(MODEL_KINDS[1:2]) + list(MODEL_KINDS[3:]) if tier != "quick" else [])
+    binary = ("logistic", dict(source_dimension=1, dimension=3, obs_models="bernoulli"), 3)
+    kinds = [MODEL_KINDS[0], scalar, MODEL_KINDS[2], binary] + (list(MODEL_KINDS[1:2]) + list(MODEL_KINDS[3:]) if tier != "quick" else [])
     for k_i, (kind, kw, n_ft) in enumerate(kinds):
         base_m, base_st, ds, df = build(kind, kw, n_ft, seed + k_i, None, 0)
         ref = observables(base_m, base_st)
@@ -79,13 +83,21 @@ def standin_masking(tier, seed):
         n_obs_ref = int(df[feats].notna().to_numpy().sum())
         cnt = ref.get("n_obs", ref.get("n_obs_per_ft"))
         evals += 1
-        if int(torch.as_tensor(cnt).sum()) != n_obs_ref:
+        if cnt is not None and int(torch.as_tensor(cnt).sum()) != n_obs_ref:      # (the Bernoulli model keeps no observation count)
             violations.append(dict(key=f"{kind}: observation count {cnt.tolist()} != number of observed entries {n_obs_ref}"))
         mdl = tensor_value(base_st["model"])
         y, w = base_st["y"].value, base_st["y"].weight.bool()
         rmse = torch.sqrt(((y - mdl)[w] ** 2).sum() / w.sum())
-        noise = ref["M:noise_std"]
-        if noise.numel() == 1 and abs(float(noise) - float(rmse)) > 1e-4:
+        noise = ref.get("M:noise_std")
+        if kw.get("obs_models") == "bernoulli":
+            # the attachment is minus the Bernoulli log-likelihood of the observed entries only
+            p_ = mdl.clamp(1e-7, 1 - 1e-7)
+            ll = torch.where(w, y * torch.log(p_) + (1 - y) * torch.log(1 - p_), torch.zeros_like(p_)).sum(dim=(1, 2))
+            evals += 1
+            if not torch.allclose(ref["nll_attach_ind"].double(), -ll.double(), rtol=1e-4, atol=1e-4):
+                violations.append(dict(key=f"{kind} bernoulli: nll_attach_ind is not minus the log-likelihood of the observed entries only",
+                                       got=ref["nll_attach_ind"].tolist(), want=(-ll).tolist()))
+        if noise is not None and noise.numel() == 1 and abs(float(noise) - float(rmse)) > 1e-4:
             violations.append(dict(key=f"{kind}: scalar noise update {float(noise):.6f} is not the RMS residual over observed entries {float(rmse):.6f}"))
         for fill in fills:
             for pad in (0, 3):
